@@ -993,10 +993,22 @@ def _specialised(interp, st, key, args):
     consts = []
     for i, a in enumerate(args):
         tt = interp.term_of_operand(st, a)
+        kk = a.get("k") or {}
+        if kk.get("v") is not None and not int_type(kk.get("ty", "")) and kk.get("ty") not in ("bool", "char"):
+            # a constant of a newtype over an integer (`Family::IPV4`): the wrapped field is known
+            consts.append((i + 1, kk["v"], ".f0"))
+            continue
         if tt and tt[0] == "0" and isinstance(tt[1], int):
             consts.append((i + 1, tt[1]))
         else:
             l = operand_local(a)
+            if l is not None and interp.lty(l).startswith("&"):
+                rr = referent(interp, st, a)
+                if rr:
+                    lo, hi = st.z.lo(rr + ".f0"), st.z.hi(rr + ".f0")
+                    if lo == hi and lo not in (INF, -INF):
+                        consts.append((i + 1, int(lo), ".*.f0"))
+                        continue
             if l is not None:
                 lo, hi = st.z.lo("L%d" % l), st.z.hi("L%d" % l)
                 if lo == hi and lo not in (INF, -INF):
@@ -1019,8 +1031,10 @@ def _specialised(interp, st, key, args):
     prog._absint_spec_depth = depth + 1
     try:
         assume = []
-        for i, v in consts:
-            assume += [("L%d" % i, "0", v), ("0", "L%d" % i, -v)]
+        for c_ in consts:
+            i, v = c_[0], c_[1]
+            sfx = c_[2] if len(c_) > 2 else ""
+            assume += [("L%d%s" % (i, sfx), "0", v), ("0", "L%d%s" % (i, sfx), -v)]
         it = Interp(prog, key, interp.profile, assume=assume)
         if len(it.fv.blocks) > 120:
             return None
